@@ -442,10 +442,17 @@ func runGateMiss(in Input) lib.Result {
 }
 
 func gateResult(in Input, g ingestRec, rd, final readRec) lib.Result {
-	ing := fmt.Sprintf("{| ig_w := %s; ig_j := %s; ig_slot := %s; ig_start := %s; ig_end := %s |}",
-		lib.Nat(g.w), lib.Nat(g.j), lib.Nat(g.slot), lib.Z(g.start), lib.Z(g.end))
-	coq := "{| k_stream := " + lib.Str(in.Stream) + "; k_writers := " + lib.Nat(1) + "; k_per_writer := " + lib.Nat(1) +
-		"; k_same_slot := false; k_cold := true; k_ingests := " + lib.List([]string{ing}) + "; k_reads := " + lib.List([]string{coqRead(rd)}) +
+	return gateResultN(in, []ingestRec{g}, rd, final)
+}
+
+func gateResultN(in Input, gs []ingestRec, rd, final readRec) lib.Result {
+	ings := make([]string, len(gs))
+	for i, g := range gs {
+		ings[i] = fmt.Sprintf("{| ig_w := %s; ig_j := %s; ig_slot := %s; ig_start := %s; ig_end := %s |}",
+			lib.Nat(g.w), lib.Nat(g.j), lib.Nat(g.slot), lib.Z(g.start), lib.Z(g.end))
+	}
+	coq := "{| k_stream := " + lib.Str(in.Stream) + "; k_writers := " + lib.Nat(1) + "; k_per_writer := " + lib.Nat(len(gs)) +
+		"; k_same_slot := false; k_cold := true; k_ingests := " + lib.List(ings) + "; k_reads := " + lib.List([]string{coqRead(rd)}) +
 		"; k_final := " + coqRead(final) + "; k_own_totals := []; k_put_error := false |}"
 	return lib.Result{Coq: coq, NonTrivial: true,
 		Feat: map[string]interface{}{"stream": in.Stream},
@@ -603,6 +610,62 @@ func runGateTreeSave(in Input) lib.Result {
 	return res
 }
 
+// deterministic schedule "after a restart": the dimensions of the shared series are on disk but not in the lfu; a render
+// is held for 50 ms inside the deserialization of a dimension (the cache's exported FromBytes field) while the first
+// ingest of a NEW sibling series (sharing that dimension) runs and is acknowledged; afterwards the sibling must be visible.
+func runGateRestart(in Input) lib.Result {
+	storage.VerifDisablePeriodicTasks()
+	dir, err := os.MkdirTemp("", "agentb-c08-")
+	if err != nil {
+		return lib.Result{Crash: err.Error()}
+	}
+	defer os.RemoveAll(dir)
+	cfg := &config.Server{StoragePath: dir, CacheEvictThreshold: 0.99, CacheEvictVolume: 0.3,
+		MaxNodesSerialization: 2048, MaxNodesRender: 2048, BadgerLogLevel: "error"}
+	st, err := storage.New(cfg)
+	if err != nil {
+		return lib.Result{Crash: "storage.New: " + err.Error()}
+	}
+	cancel := watchdog("gate-restart", 30*time.Second)
+	defer cancel()
+	t0 := time.Now()
+	base, _ := storage.ParseKey("shared{foo=bar}")
+	sibling, _ := storage.ParseKey("shared{foo=bar,x=1}")
+	g0 := ingestRec{w: 0, j: 0, slot: 1, start: int64(time.Since(t0))}
+	put(st, base, 1, ingestProfile(0, 0))
+	g0.end = int64(time.Since(t0))
+	st.Close() // graceful: everything is flushed to Badger
+	st, err = storage.New(cfg)
+	if err != nil {
+		return lib.Result{Crash: "storage.New after restart: " + err.Error()}
+	}
+	c := st.VerifCache("dimensions")
+	orig := c.FromBytes
+	var calls int32
+	entered := make(chan struct{}, 4)
+	c.FromBytes = func(k string, v []byte) (interface{}, error) {
+		if atomic.AddInt32(&calls, 1) == 1 {
+			entered <- struct{}{}
+			time.Sleep(50 * time.Millisecond)
+		}
+		return orig(k, v)
+	}
+	done := make(chan readRec)
+	go func() { done <- readShared(st, base, t0, 4) }()
+	select {
+	case <-entered:
+	case <-time.After(5 * time.Second):
+		return lib.Result{Crash: "gate-restart: the render never deserialized a dimension"}
+	}
+	g1 := ingestRec{w: 0, j: 1, slot: 2, start: int64(time.Since(t0))}
+	put(st, sibling, 2, ingestProfile(0, 1))
+	g1.end = int64(time.Since(t0))
+	rd := <-done
+	final := readShared(st, base, t0, 4)
+	st.Close()
+	return gateResultN(in, []ingestRec{g0, g1}, rd, final)
+}
+
 func run(in Input) lib.Result {
 	if in.Procs > 0 {
 		prev := runtime.GOMAXPROCS(in.Procs)
@@ -622,6 +685,9 @@ func run(in Input) lib.Result {
 	}
 	if in.Stream == "dims" {
 		return runDims(in)
+	}
+	if in.Stream == "gate-restart-dimensions" {
+		return runGateRestart(in)
 	}
 	if in.Stream == "gate-tree-save" {
 		return runGateTreeSave(in)
